@@ -88,6 +88,23 @@ func (b *FakeBackend) Find(key []byte, c db.Context) ([]byte, error) {
 	return nil, errors.New("not found")
 }
 
+// fakeRows is a tiny zone every fake backend serves, so that real queries get
+// a cacheable answer: example.com SOA + NS, www.example.com A.
+var fakeRows = func() map[string][][]byte {
+	head := func(t uint16) []byte {
+		return append([]byte{byte(t >> 8), byte(t), '='}, 0, 0, 0, 60, 0, 0, 0, 0, 0, 0, 0, 0)
+	}
+	soa := append(head(6), NameWire("ns.example.com")...)
+	soa = append(soa, NameWire("hostmaster.example.com")...)
+	soa = append(soa, 0, 0, 0, 1, 0, 0, 0x1c, 0x20, 0, 0, 7, 8, 0, 9, 0x3a, 0x80, 0, 0, 0, 60)
+	ns := append(head(2), NameWire("ns.example.com")...)
+	a := append(head(1), 0, 0, 0, 1, 192, 0, 2, 1)
+	return map[string][][]byte{
+		"\x00\x00" + string(NameWire("example.com")):     {soa, ns},
+		"\x00\x00" + string(NameWire("www.example.com")): {a},
+	}
+}()
+
 // ForEach implements db.DBI.
 func (b *FakeBackend) ForEach(key []byte, f func(value []byte) error, c db.Context) error {
 	b.event("foreach")
@@ -96,6 +113,11 @@ func (b *FakeBackend) ForEach(key []byte, f func(value []byte) error, c db.Conte
 	b.w.mu.Unlock()
 	if string(key) == string(b.w.VKey) && has {
 		return f([]byte("v"))
+	}
+	for _, row := range fakeRows[string(key)] {
+		if err := f(append([]byte(nil), row...)); err != nil {
+			return err
+		}
 	}
 	return nil
 }
